@@ -72,8 +72,10 @@ class Result:
             if seen[v["sig"]] < 3 and len(self.violations) < 200:
                 self.violations.append(v)
                 seen[v["sig"]] += 1
-        for s in o.samples:
-            if len(self.samples) < 6:
+        # one sample per merged group (up to a cap); the evidence writer picks
+        # evenly spaced ones so that the samples span the catalogue
+        for s in o.samples[:1]:
+            if len(self.samples) < 4000:
                 self.samples.append(s)
         for k, v in o.extra.items():
             if k.startswith("max_") or k.endswith("_completed"):
@@ -118,6 +120,13 @@ def _run(group):
                 import shutil
                 shutil.rmtree(p, ignore_errors=True) if os.path.isdir(p) \
                     else os.remove(p)
+
+
+def spread(items, n):
+    """n evenly spaced elements of items (first and last included)."""
+    if len(items) <= n:
+        return list(items)
+    return [items[(i * (len(items) - 1)) // (n - 1)] for i in range(n)]
 
 
 def load_known():
@@ -242,7 +251,7 @@ def run_check(check, tier, seed, jobs=None):
         "states": total.states,
         "transitions": total.transitions,
         "traces_validated_against_impl": total.validated + total.conformance,
-        "samples": jsonable(total.samples) or ["(none)"],
+        "samples": jsonable(spread(total.samples, 8)) or ["(none)"],
         "exhaustive": True,
         "evaluations": total.evals,
         "distinct_nontrivial": total.states,
